@@ -283,6 +283,9 @@ func VerifC14_Hooks() {
 	// operations that load the record, change it and put it back: a vetoed
 	// put leaves the stored record as it was
 	if h.replace == nil && !h.pre && !h.post && rt.Bool("domodify") {
+		// (through an interface that may also stamp every record it writes)
+		stamp := rt.Bool("interface-always-makes-crownjewel")
+		iface := NewInterface(&Options{Local: true, Internal: true, AlwaysMakeCrownjewel: stamp})
 		var err error
 		switch rt.Choice("modify", 4) {
 		case 0:
@@ -306,6 +309,7 @@ func VerifC14_Hooks() {
 				rt.Assert(m.Expires == 0, "hooks/vetoed-expiry-change-leaves-expiry")
 				rt.Assert(m.GetRelativeExpiry() <= 0, "hooks/vetoed-expiry-change-leaves-relative-expiry")
 				rt.Assert(m.CheckPermission(true, false), "hooks/vetoed-flag-change-leaves-flags")
+				rt.Assert(m.CheckPermission(false, true), "hooks/vetoed-operation-leaves-the-interface-stamp-off")
 			}
 			_, gerr := iface.Get("t:a/x")
 			rt.Assert(gerr == nil, "hooks/vetoed-modification-record-still-visible")
